@@ -29,6 +29,17 @@ ATYPES = {"np": np.ndarray, "duck": Duck, "mduck": MDuck, "any": typing.Any}
 BUILTIN_TYPES = {"int": int, "str": str, "any": typing.Any, "leaf": Leaf, "float": float, "none": type(None)}
 
 
+STRUCT_DTYPES = {"struct1": np.dtype([("first", np.uint8), ("second", np.int8)]),
+                 "struct2": np.dtype([("x", np.float32), ("y", np.float32), ("z", np.int16)])}
+_STRUCT_CATS = {}
+
+
+def struct_category(name):
+    if name not in _STRUCT_CATS:
+        _STRUCT_CATS[name] = jaxtyping.make_numpy_struct_dtype(STRUCT_DTYPES[name.lower()], name)
+    return _STRUCT_CATS[name]
+
+
 def clear_caches():
     """Construction caches (lru_cache) make the 2nd execution of a seed take hits where the 1st took
     misses: different lines, different schedule.  Every phase of a run starts from cleared caches."""
@@ -131,7 +142,7 @@ class World:
         spec = self.scn["anns"][aid]
         k = spec["k"]
         if k == "arr":
-            cat = getattr(jaxtyping, spec["dtype"])
+            cat = struct_category(spec["dtype"]) if spec["dtype"].startswith("Struct") else getattr(jaxtyping, spec["dtype"])
             at = spec["atype"]
             base = self.ann(at[1:]) if at.startswith("@") else ATYPES[at]
             out = cat[base, spec["dims"]]
@@ -275,7 +286,8 @@ def build_value(v, frame=None, memo=None):
             memo[v["key"]] = build_value(v["v"], frame, memo)
         return memo[v["key"]]
     if t == "np":
-        return np.zeros(tuple(v["s"]), dtype=v.get("d", "float32"))
+        d = v.get("d", "float32")
+        return np.zeros(tuple(v["s"]), dtype=STRUCT_DTYPES.get(d, d))
     if t == "duck":
         return Duck(v["s"], v.get("d", "float32"))
     if t == "mduck":
